@@ -19,6 +19,7 @@ import (
 	"github.com/janelia-flyem/dvid/datatype/labelmap"
 	"github.com/janelia-flyem/dvid/datatype/neuronjson"
 	"github.com/janelia-flyem/dvid/dvid"
+	"github.com/janelia-flyem/dvid/dvid/verifhook"
 	"github.com/janelia-flyem/dvid/storage"
 
 	"verif/harness/dv"
@@ -580,7 +581,7 @@ func main() {
 	}
 
 	histN := 0
-	addHist := func(seed uint64, wrap bool, lifecycle bool) {
+	addHist := func(seed uint64, wrap bool, lifecycle bool, race bool) {
 		r := lib.NewRand(seed)
 		wipeData()
 		histN++
@@ -728,6 +729,84 @@ func main() {
 				}
 			}
 		}
+		if race {
+			// Delete an instance and re-create its name at once, while the deletion goroutine has not
+			// yet removed the old instance from the repo (it is held at the yield point at the start of
+			// repoT.deleteData when the tree has it; otherwise the attempt simply comes later), writes
+			// to the new instance, then the deletion runs to its end.  Afterwards the instance that was
+			// created must exist with exactly its own data.
+			name := "R" + sfx
+			newInst(0, name)
+			writes(4, []int{0})
+			cur := 0
+			parked := make(chan struct{}, 8)
+			release := make(chan struct{})
+			verifhook.Set(func(site string) {
+				if site == "datastore.deleteData.start" {
+					parked <- struct{}{}
+					<-release
+				}
+			})
+			for round := 0; round < 3; round++ {
+				oldID := ids[cur]
+				if err := datastore.DeleteDataByName(dvid.UUID(root), dvid.InstanceName(name), ""); err != nil {
+					run.Count("race:delete-refused-instance-missing")
+					break
+				}
+				steps = append(steps, fmt.Sprintf("HDropHeld %d%%nat", cur))
+				held := false
+				select {
+				case <-parked:
+					held = true
+				case <-time.After(300 * time.Millisecond):
+				}
+				run.Count(fmt.Sprintf("race:deletion-held:%v", held))
+				if !held {
+					// no yield point in this tree: the deletion has run; the re-creation comes after it
+					waitGone(name)
+					waitKeysGone(oldID)
+					steps = append(steps, "HRelease")
+				}
+				next := cur + 1
+				accepted := dv.NewInstance(root, "keyvalue", name, nil) == nil
+				if accepted {
+					d, err := datastore.GetDataByUUIDName(dvid.UUID(root), dvid.InstanceName(name))
+					if err != nil {
+						accepted = false
+					} else {
+						names[next], ids[next] = name, uint32(d.InstanceID())
+						steps = append(steps, fmt.Sprintf("HTryNew %d%%nat (Some %d)", next, d.InstanceID()))
+						writes(3, []int{next})
+					}
+				}
+				if !accepted {
+					steps = append(steps, fmt.Sprintf("HTryNew %d%%nat None", next))
+				}
+				if held {
+					release <- struct{}{}
+					waitKeysGone(oldID)
+					time.Sleep(80 * time.Millisecond)
+					steps = append(steps, "HRelease")
+				}
+				if !accepted {
+					waitGone(name)
+					newInst(next, name)
+				}
+				writes(3, []int{next})
+				cur = next
+			}
+			verifhook.Set(nil)
+			time.Sleep(80 * time.Millisecond)
+			vw := fmt.Sprintf("[(%d%%nat, %s)]", cur, view(cur))
+			if datastore.DeleteDataByName(dvid.UUID(root), dvid.InstanceName(name), "") == nil {
+				waitGone(name)
+			}
+			time.Sleep(100 * time.Millisecond)
+			wipeData()
+			term := fmt.Sprintf("(CRace %d\n   [%s]\n   %s)", rootV, strings.Join(steps, "; "), vw)
+			run.Add("race", term, jcase{Kind: "hist", Seed: seed, Shape: "race"}, fmt.Sprintf("hist/%d/race", seed))
+			return
+		}
 		if lifecycle {
 			// instance life cycle with restarts: the instance with the highest id is deleted and its
 			// deletion interrupted, another one is deleted completely, the server restarts, new
@@ -843,7 +922,7 @@ func main() {
 		case "store":
 			addStore(c.Shape, c.Seed)
 		case "hist":
-			addHist(c.Seed, c.Nil, c.Shape == "lifecycle")
+			addHist(c.Seed, c.Nil, c.Shape == "lifecycle", c.Shape == "race")
 		}
 		run.Finish("c06case", "replay", tail)
 		shutdown()
@@ -980,10 +1059,17 @@ func main() {
 		nH = 20
 	}
 	for n := 0; n < nH; n++ {
-		addHist(rng.U64(), false, false)
+		addHist(rng.U64(), false, false, false)
 	}
 	for n := 0; n < 1+nH/3; n++ {
-		addHist(rng.U64(), true, false)
+		addHist(rng.U64(), true, false, false)
+	}
+	nR := 2
+	if thorough {
+		nR = 10
+	}
+	for n := 0; n < nR; n++ {
+		addHist(rng.U64(), false, false, true)
 	}
 	// life cycles with restarts last: a restart replaces the store objects the earlier sections hold
 	nL := 2
@@ -991,12 +1077,12 @@ func main() {
 		nL = 8
 	}
 	for n := 0; n < nL; n++ {
-		addHist(rng.U64(), false, true)
+		addHist(rng.U64(), false, true, false)
 	}
 	run.Extra["grid"] = grid
 	run.Extra["digest_points_per_case"] = 49*4 + 343
 	run.Finish("c06case",
-		"boundary grid {0,1,255,256,2^31,2^32-2,2^32-1}^3 literally with one TKey, per axis with the TKey corpus (empty, 0x00/0xFF runs, prefix pairs, datatype keys), the whole cube x corpus by digest, random ids/TKeys; malformed keys; datatype constructors; RawRangeQuery order on badger; storage-level drop/DeleteAll/prefix/mixed scenarios over neighbouring instance ids; HTTP A/B histories with deletion and re-creation incl. instance ids wrapping at 2^32; instance life cycles with restarts (complete and interrupted deletion of the highest id, re-creation under the same name, emptiness of every new instance by raw dump); distinct by (kind, inputs)",
+		"boundary grid {0,1,255,256,2^31,2^32-2,2^32-1}^3 literally with one TKey, per axis with the TKey corpus (empty, 0x00/0xFF runs, prefix pairs, datatype keys), the whole cube x corpus by digest, random ids/TKeys; malformed keys; datatype constructors; RawRangeQuery order on badger; storage-level drop/DeleteAll/prefix/mixed scenarios over neighbouring instance ids; HTTP A/B histories with deletion and re-creation incl. instance ids wrapping at 2^32; delete-and-recreate-at-once rounds with the deletion goroutine held before it removes the instance by name; instance life cycles with restarts (complete and interrupted deletion of the highest id, re-creation under the same name, emptiness of every new instance by raw dump); distinct by (kind, inputs)",
 		tail)
 }
 
